@@ -171,13 +171,13 @@ func runWorkload(c *wk.Ctx, i int) {
 		}
 	}
 	ordering := len(points)
-	// quick tier: a seeded subset of the ordering points; thorough: all of them
+	// quick tier: a seeded subset of 260 ordering points; thorough: up to 4000 (all of them for most workloads)
 	var ks []int64
 	for k := range points {
 		ks = append(ks, k)
 	}
 	sort.Slice(ks, func(a, b int) bool { return ks[a] < ks[b] })
-	budget := c.Pick(260, 1<<30)
+	budget := c.Pick(260, 4000) // thorough: all ordering points of an ordinary workload, a seeded 4000 of the largest ones
 	if len(ks) > budget {
 		r.Shuffle(len(ks), func(a, b int) { ks[a], ks[b] = ks[b], ks[a] })
 		ks = ks[:budget]
@@ -204,7 +204,7 @@ func runWorkload(c *wk.Ctx, i int) {
 		}
 	}
 	c.Count("manifest_writes_in_logs", int64(len(mw)))
-	if mb := c.Pick(40, 1<<30); len(mw) > mb {
+	if mb := c.Pick(40, 800); len(mw) > mb {
 		r.Shuffle(len(mw), func(a, b int) { mw[a], mw[b] = mw[b], mw[a] })
 		mw = mw[:mb]
 	}
